@@ -350,10 +350,10 @@ def westfall_young(data, test, method="minP", alternatives="greater",
             # check alternative
             if alternatives[c] == "greater":
             # proportion test stats greater than or equal to perm stat, including original stat
-                ps[c] = ((len(tv[c]) - rankdata(tv[c], method='min') + 1) + (ts[c] >= np.array(tv[c]))) / (reps + 1)
+                ps[c] = ((len(tv[c]) - rankdata(tv[c], method='min').astype(float) + 1) + (ts[c] >= np.array(tv[c]))) / (reps + 1)
                 raw_p[c] = (np.sum(np.array(tv[c]) >= ts[c]) + 1) / (reps + 1)
             elif alternatives[c] == "two-sided":
-                ps[c] = ((len(tv[c]) - rankdata(np.abs(tv[c]), method='min')) + (np.abs(ts[c]) >= np.abs(tv[c])) + 1) / (reps + 1)
+                ps[c] = ((len(tv[c]) - rankdata(np.abs(tv[c]), method='min').astype(float)) + (np.abs(ts[c]) >= np.abs(tv[c])) + 1) / (reps + 1)
                 raw_p[c] = (np.sum(np.array(np.abs(tv[c])) >= np.abs(ts[c])) + 1) / (reps + 1)
             else:
                 raise ValueError("alternatives must be either 'greater' or 'two-sided'")
